@@ -3,3 +3,19 @@ TB = "trusted base: RDKit (parser, sanitiser, canonical SMILES, periodic table) 
 claim("C07", "exploration", "property-based testing against an independent composition oracle + exhaustive enumeration of small comparator inputs",
       "Generated-input search: every corpus molecule and every periodic-table species enumerated, Hypothesis-edited molecules/mixtures, and ALL ordered pairs of small composition vectors for the comparator, each judged by an oracle that shares no code with synrbl. Exhaustive only on the stated micro-domains.",
       TB + "; charge sign convention of the difference formula unspecified (magnitude checked)", "DESIGN.md 4/C07")
+PIPE_NOTE = TB + "; exploration of generated batches through the real Balancer.rebalance, each row judged by the independent oracle"
+claim("C01", "exploration", "property-based testing of Balancer.rebalance against an independent balance oracle (Hypothesis batches + enumerated redox-template / Z>86 / corpus sub-domains)",
+      "Generated batches of corpus, mutated-balanced, redox-template and assembled reactions under drawn batch sizes, thresholds and worker counts; every solved row is re-balanced by an oracle sharing no code with synrbl. Failures are bucketed by stage/template and shrunk. No exhaustive claim beyond the enumerated template x R-group and Z>86 lists.",
+      PIPE_NOTE, "DESIGN.md 4/C01")
+claim("C02", "exploration", "property-based testing with a canonical-multiset containment oracle; marker-substring enrichment of inputs",
+      "Generated reactions (half of them enriched with molecules spelling the pipeline's marker substrings) are run end-to-end; per side the canonical multiset of input molecules must be contained in the output and input_reaction must be the unmapped input. One genuine defect is recorded as known finding K02 and recognised by an input-shape predicate.",
+      PIPE_NOTE, "DESIGN.md 4/C02")
+claim("C03", "exploration", "property-based testing of decline/solve row invariants with an independent carbon-count oracle",
+      "Generated reactions at the default threshold: declined rows must equal their input and carry an issue, solved rows must name a method and carry no issue, product-side carbon excess must be declined.",
+      PIPE_NOTE, "DESIGN.md 4/C03")
+claim("C04", "exploration", "property-based testing (forward: oracle-balanced inputs and their variants; converse: general inputs) with an independent balance oracle",
+      "All curated oracle-balanced reactions (quarter in quick, all in thorough) and Hypothesis-built variants (reversal, multiples, unions, spectators, respelling) must pass as input-balanced unchanged; for general inputs the label input-balanced must imply oracle balance and no additions.",
+      PIPE_NOTE, "DESIGN.md 4/C04")
+claim("C18", "exploration", "property-based testing: statistics recomputed from returned rows (API stats argument and CLI .stats file)",
+      "Generated runs (incl. malformed rows, batch partitions, demoting thresholds, CLI path) whose reported counters are compared with counts recomputed from the rows.",
+      PIPE_NOTE + "; 'not solved before the MCS stage' is derived from final row labels", "DESIGN.md 4/C18")
